@@ -12,9 +12,9 @@ demo=$(ls "$OUT"/demo*.rs 2>/dev/null | head -1)
 name=$(basename "$demo" .rs)
 cp "$demo" tests/
 T="--target-dir $WT/target"
-cargo ${TC:-} test --offline $T $FEAT --test "$name" >"$OUT/verify-clean.log" 2>&1; c=$?
+cargo ${TC:-} test --offline $T $FEAT --test "$name" ${TESTARGS:-} >"$OUT/verify-clean.log" 2>&1; c=$?
 git apply "$OUT/patch.diff" || { echo "patch does not apply"; exit 2; }
-cargo ${TC:-} test --offline $T $FEAT --test "$name" >"$OUT/verify-patched.log" 2>&1; p=$?
+cargo ${TC:-} test --offline $T $FEAT --test "$name" ${TESTARGS:-} >"$OUT/verify-patched.log" 2>&1; p=$?
 rm -f tests/$name.rs
 cargo test --offline $T --workspace >"$OUT/verify-suite.log" 2>&1; s=$?
 passed=$(grep -E "^test result: ok" "$OUT/verify-suite.log" | awk '{s+=$4} END{print s}')
